@@ -72,6 +72,59 @@ func readLimits(pre string, o map[string]any) {
 	o["cpuset"] = rd(filepath.Join("/sys/fs/cgroup/cpuset", pre, "cpuset.cpus"))
 }
 
+// ctrlsOf: the controller set an operation asks for ("ctrls": names), all of them when it does not say
+func ctrlsOf(op map[string]any, all *cgroup.Controllers) *cgroup.Controllers {
+	l, ok := op["ctrls"].([]any)
+	if !ok || cgroup.DetectedCgroupType == cgroup.TypeV2 {
+		return all
+	}
+	ct := &cgroup.Controllers{}
+	for _, n := range l {
+		switch n {
+		case "cpu":
+			ct.CPU = true
+		case "cpuset":
+			ct.CPUSet = true
+		case "cpuacct":
+			ct.CPUAcct = true
+		case "memory":
+			ct.Memory = true
+		case "pids":
+			ct.Pids = true
+		}
+	}
+	return ct
+}
+
+// children counts the sub-directories of group prefix, per hierarchy
+func children(prefix string) map[string]int {
+	r := map[string]int{}
+	count := func(key, dir string) {
+		es, err := os.ReadDir(dir)
+		if err != nil {
+			r[key] = -1
+			return
+		}
+		n := 0
+		for _, e := range es {
+			if e.IsDir() {
+				n++
+			}
+		}
+		r[key] = n
+	}
+	if cgroup.DetectedCgroupType == cgroup.TypeV1 {
+		for _, c := range ctrls {
+			if _, err := os.Stat(filepath.Join("/sys/fs/cgroup", c, prefix)); err == nil {
+				count(c, filepath.Join("/sys/fs/cgroup", c, prefix))
+			}
+		}
+	} else {
+		count("v2", filepath.Join("/sys/fs/cgroup", prefix))
+	}
+	return r
+}
+
 func main() {
 	hx.Init()
 	all := &cgroup.Controllers{CPU: true, CPUSet: true, CPUAcct: true, Memory: true, Pids: true}
@@ -137,14 +190,14 @@ func main() {
 			}
 			switch op["op"] {
 			case "pkgnew":
-				h, err := cgroup.New(op["prefix"].(string), all)
+				h, err := cgroup.New(op["prefix"].(string), ctrlsOf(op, all))
 				o["err"] = errs(err)
 				if err == nil {
 					handles[int(hx.Int(op["as"]))] = h
 					o["existing"] = h.Existing()
 				}
 			case "open":
-				h, err := cgroup.OpenExisting(op["prefix"].(string), all)
+				h, err := cgroup.OpenExisting(op["prefix"].(string), ctrlsOf(op, all))
 				o["err"] = errs(err)
 				if err == nil {
 					handles[int(hx.Int(op["as"]))] = h
@@ -215,6 +268,62 @@ func main() {
 					}
 				}
 				o["names"] = names
+			case "random_many":
+				// a population of groups from Random under one parent, all alive at the same time; made by `workers` goroutines
+				n, base, workers := int(hx.Int(op["n"])), int(hx.Int(op["as"])), int(hx.Int(op["workers"]))
+				if workers < 1 {
+					workers = 1
+				}
+				res := make([]cgroup.Cgroup, n)
+				es := make([]error, n)
+				parent := hnd(op["h"])
+				var wg sync.WaitGroup
+				for w := 0; w < workers; w++ {
+					wg.Add(1)
+					go func(w int) {
+						defer wg.Done()
+						for i := w; i < n; i += workers {
+							res[i], es[i] = parent.Random(op["pattern"].(string))
+						}
+					}(w)
+				}
+				wg.Wait()
+				names, ex := []string{}, []any{}
+				for i := range res {
+					if es[i] != nil || res[i] == nil {
+						names = append(names, "")
+						ex = append(ex, "err:"+fmt.Sprint(es[i]))
+						continue
+					}
+					handles[base+i] = res[i]
+					names = append(names, fmt.Sprint(res[i]))
+					ex = append(ex, res[i].Existing())
+				}
+				o["names"], o["existing"] = names, ex
+				o["children"] = children(op["prefix"].(string))
+			case "destroy_many":
+				n, base := int(hx.Int(op["n"])), int(hx.Int(op["as"]))
+				nerr, first := 0, ""
+				for i := 0; i < n; i++ {
+					if h := handles[base+i]; h != nil {
+						if err := h.Destroy(); err != nil {
+							if nerr == 0 {
+								first = fmt.Sprint(h) + ": " + err.Error()
+							}
+							nerr++
+						}
+						delete(handles, base+i)
+					}
+				}
+				o["errors"], o["first_error"] = nerr, first
+				o["children"] = children(op["prefix"].(string))
+			case "rawaddproc":
+				// somebody else (another manager, an earlier attempt) puts the process into the group's directory of ONE controller
+				dir := filepath.Join("/sys/fs/cgroup", op["ctrl"].(string), op["prefix"].(string))
+				if cgroup.DetectedCgroupType == cgroup.TypeV2 {
+					dir = filepath.Join("/sys/fs/cgroup", op["prefix"].(string))
+				}
+				o["err"] = errs(os.WriteFile(filepath.Join(dir, "cgroup.procs"), []byte(fmt.Sprint(procs[int(hx.Int(op["proc"]))].Process.Pid)), 0644))
 			case "rawmkdir":
 				o["err"] = errs(os.Mkdir(filepath.Join("/sys/fs/cgroup", op["ctrl"].(string), op["prefix"].(string)), 0755))
 			case "rawrmdir":
